@@ -174,6 +174,9 @@ def _process_sql(fn: ast.FunctionDef) -> dict:
     return out
 
 
+GUARD_FIRST = [True]
+
+
 def _receive(fn: ast.FunctionDef) -> dict:
     stmts = [s for s in fn.body if not (isinstance(s, ast.Expr) and isinstance(s.value, ast.Constant))]
     # result default, then the _can_perform_action guard before anything else
@@ -183,7 +186,14 @@ def _receive(fn: ast.FunctionDef) -> dict:
     g = stmts[1]
     if not (isinstance(g, ast.If) and u(g.test) == "not self._can_perform_action()" and isinstance(g.body[0], ast.Return)
             and u(g.body[0].value) == "False"):
-        raise ValueError("receive: `if not self._can_perform_action(): return False` is not the first guard")
+        # (second shift, blind change C17-h) not an extractor failure: the TABLE says so, `C17_gen_sql` is then refuted on its own;
+        # the meaning of the guard that IS there is the translated dispatcher's business (database_tr.py, C17_tr_receive,
+        # C17_gen_receive_not_running)
+        GUARD_FIRST[0] = False
+        if not isinstance(g, ast.If):
+            raise ValueError("receive: second statement is not a guard")
+    else:
+        GUARD_FIRST[0] = True
     main = stmts[2]
     if not isinstance(main, ast.If):
         raise ValueError("receive: payload dispatch not found")
@@ -355,7 +365,7 @@ def emit() -> str:
          f"def connectPasswordOp : String := \"{pc['pw_op']}\"",
          f"def connectIdGeneratedBeforeAdd : Bool := {'true' if pc['gen_before'] else 'false'}",
          "/-- `receive`: the `_can_perform_action` guard is the first statement; sql is gated on membership in `connections` -/",
-         "def receiveGuardFirst : Bool := true",
+         f"def receiveGuardFirst : Bool := {'true' if GUARD_FIRST[0] else 'false'}",
          f"def receiveDefault : Nat := {rc['default']}",
          f"def sqlUnknownConnection : Nat := {rc['sql_unknown']}",
          "/-- `_process_sql` -/",
